@@ -881,6 +881,15 @@ def main():
     json.dump(results, open(sys.argv[3], "w"))
 
 
+def interpreter_settings():
+    """settings that belong to the application, not to a library that merely looks at a stack"""
+    import threading
+    return {"gc enabled": gc.isenabled(), "gc threshold": gc.get_threshold(), "switch interval": sys.getswitchinterval(),
+            "trace function": sys.gettrace() is not None, "profile function": sys.getprofile() is not None,
+            "recursion limit": sys.getrecursionlimit(), "threading trace": threading._trace_hook is not None,
+            "threads": threading.active_count()}
+
+
 def value_stack_refcounts(results):
     """C06: 'reference counts of objects reachable only from the value stack return to baseline' -- measured with
     the cycle collector OFF, for a manager the trickery analysis handles, one it fails on (a static __exit__: the
@@ -944,11 +953,17 @@ def value_stack_refcounts(results):
                 mgr = mbox.pop()
                 fr = g.gi_frame
                 before = (sys.getrefcount(it), sys.getrefcount(mgr), sys.getrefcount(fr), sys.getrefcount(g))
+                world0 = interpreter_settings()
                 for _ in range(3):
                     st = stackscope.extract(g)
                     del st
+                world1 = interpreter_settings()
                 after = (sys.getrefcount(it), sys.getrefcount(mgr), sys.getrefcount(fr), sys.getrefcount(g))
                 del fr, mgr
+                if world1 != world0:
+                    results["mismatches"].append({"what": "extraction changed interpreter-wide settings of the application: %s -> %s (%s)"
+                                                          % (world0, world1, label),
+                                                  "pid": 0, "carrier": "gen", "mse": False, "path": [], "w": None, "source": None})
             finally:
                 if was:
                     gc.enable()
